@@ -61,6 +61,8 @@ impl DenoJsonParser {
         if let Some(at_pos) = after_slash.find('@') {
             let package_name = &rest[..slash_pos + 1 + at_pos];
             let version = &after_slash[at_pos + 1..];
+            // A specifier may carry a sub-path after the version: jsr:@scope/pkg@1.0.0/mod.ts
+            let version = version.split('/').next().unwrap_or(version);
             Some((package_name.to_string(), version.to_string()))
         } else {
             // No version specified
